@@ -1,5 +1,7 @@
 import SockModel.Model.UdpLemmas
 import SockModel.Spec.C09
+import SockModel.Model.GenQueueWorld
+import SockModel.Generated.Loops
 /-!
 # C09  UDP datagrams: boundaries, payload, source and destination preserved
 
@@ -207,3 +209,52 @@ example :
     s.sent = [⟨1, [1], 0⟩, ⟨3, [], 5⟩] ∧ s.fut 2 = .exn ∧ s.armed = false := by decide
 
 end SockModel.Udp
+
+/-! ## Source-derived tie, stage 4 (DESIGN.md §0.7.3): `SocketAsyncImpl::DriverSendTo`
+
+Generated on every run from the clang AST of src/socket_async_impl.cpp (Generated/Loops.lean) over the abstract queue /
+promise / buffer / socket interface `Gen.QueueWorld` (`auto &&[promise, buffer(, addr)] = q.front()`; `try` /
+`catch(std::runtime_error const &)` as `M.tryCatch`), run on the model's own queue state (Model/GenQueueWorld.lean) and
+tied to the model's writable action for EVERY queue, every future state and every answer of the OS.  Every generated
+`if` is decided by `omega` from the case hypotheses (whatever its polarity / arithmetic form), so the early-return
+and `q.empty()` forms of harmless_H07 are re-proved by the same script. -/
+namespace SockModel.Props.C09
+open SockModel SockModel.Udp SockModel.GenWorld
+open SockModel.AsyncQ (Bytes Fut upd upd_same upd_other)
+
+/-- the model's queue after a writable event, from what the generated `DriverSendTo` returns and leaves behind: the
+return value ("queue emptied") is what makes `DoOneSocketTask` disarm `POLLOUT`; an exception leaves it armed -/
+def afterTqWritable (r : Gen.Res Bool × TQSt) : TQ :=
+  match r.1 with
+  | .ok b => { r.2.s with armed := !b }
+  | _ => r.2.s
+
+theorem isA_sys_rt_udp : Gen.ExnClass.isA .system_error .runtime_error = true := rfl
+theorem dec_len_udp {α : Type} (l : List α) : decide (((l.length : Int) + 1) = 1) = l.isEmpty := by
+  cases l <;> simp <;> omega
+
+macro "tie_tq_simp" : tactic => `(tactic| (
+  simp (disch := omega) only [Gen.DriverSendTo, Gen.M.bind, Gen.M.pure, Gen.M.throw, Gen.M.tryCatch, isA_sys_rt_udp, t_qSize,
+    t_qEmpty, t_qPop, t_bufferSize, t_promiseSetValue, t_promiseSetException, t_sockSendTo, List.length_cons,
+    List.length_nil, List.isEmpty_cons, List.isEmpty_nil, if_pos, if_neg, if_true, if_false, ite_true, ite_false,
+    Bool.true_eq_false, Bool.false_eq_true, Int.toNat_natCast, upd_same]))
+
+/-- **tie of `SocketAsyncImpl::DriverSendTo`**: one writable event of an armed, live UDP socket -/
+theorem tie_DriverSendTo (fuel : Nat) (s : TQ) (a : TAns) (hd : s.destroyed = false) (ha : s.armed = true) :
+    afterTqWritable (Gen.DriverSendTo tqWorld fuel ⟨s, some a⟩) = tqStep s (.writable a) := by
+  obtain ⟨q, armed, destroyed, fut, sent, returned, enqd, done⟩ := s
+  simp only at hd ha
+  subst hd ha
+  cases q with
+  | nil =>
+    tie_tq_simp
+    simp [afterTqWritable, tqStep]
+  | cons e rest =>
+    cases a <;> tie_tq_simp <;> simp [afterTqWritable, tqStep, dec_len_udp]
+
+/-- the UDP enqueue side is the same template as the TCP one (tied to the model in Props/C02 `tie_AsyncSend`): for
+EVERY world, `SendTo` does what `Send` does - lock, read `q.empty()`, `emplace`, unlock, arm iff the queue was empty -/
+theorem tie_AsyncSendTo {ω : Type} (W : Gen.QueueWorld ω) (fuel : Nat) : Gen.AsyncSendTo W fuel = Gen.AsyncSend W fuel := by
+  funext w
+  simp only [Gen.AsyncSendTo, Gen.AsyncSend, Gen.DoSend_Udp, Gen.DoSend_Tcp, Gen.DoSendEnqueue_Udp, Gen.DoSendEnqueue_Tcp]
+end SockModel.Props.C09
